@@ -324,6 +324,9 @@ def parse_type(s):
         return ("set",)
     if s.startswith("pairdict "):
         return ("pairdict", parse_type(s[9:]))
+    if s.startswith("kdict ") and len(s[6:].strip().split(" ", 1)) == 2:      # `kdict K V`: K a type NAME (one word)
+        kk, vv = s[6:].strip().split(" ", 1)
+        return ("kdict", parse_type(kk), parse_type(vv))
     return (s,)
 
 
@@ -358,6 +361,8 @@ def coq_type(t):
         return "(list Z)"
     if t[0] == "pairdict":
         return "(list ((Z * Z) * %s))" % coq_type(t[1])
+    if t[0] == "kdict":
+        return "(list (%s * %s))" % (coq_type(t[1]), coq_type(t[2]))
     return t[0]
 
 
@@ -557,6 +562,10 @@ class Tr:
                 fr = Fraction(repr(e.value))      # the decimal value of the literal's shortest repr
                 tmpl, ty = self.cfg["float_literals"]
                 return "(" + tmpl.format(n=fr.numerator, d=fr.denominator) + ")", parse_type(ty)
+            if isinstance(e.value, str) and self.cfg.get("str_consts") is not None:
+                # cfg["str_consts"]: a string constant is the list of its code points, at the declared type name
+                ty = parse_type(self.cfg["str_consts"])
+                return "([%s] : %s)" % ("; ".join(str(ord(ch)) for ch in e.value), coq_type(ty)), ty
             raise Unsupported("constant: %r" % (e.value,))
         if isinstance(e, ast.List):
             if not e.elts:
@@ -573,6 +582,28 @@ class Tr:
             return "[" + "; ".join(p[0] for p in parts) + "]", ("list", parts[0][1])
         if isinstance(e, ast.Dict) and not e.keys:
             return "[]", EMPTY_T
+        if isinstance(e, ast.Dict) and self.cfg.get("dict_literal_type") is not None:
+            return self.kdict_literal(e, env, hoist)
+        if isinstance(e, ast.DictComp) and self.kdict_items_source(e, env) is not None:
+            return self.kdict_comp(e, env, hoist)
+        if isinstance(e, ast.Call) and isinstance(e.func, ast.Attribute) and e.func.attr == "get" and len(e.args) == 2 and not e.keywords \
+                and isinstance(e.func.value, ast.Name) and env.get(e.func.value.id, ("unit",))[0] == "kdict":
+            # d.get(k, default) on a `kdict K V`: the value of the first item with that key, else the default (evaluated first, as an argument)
+            _, kt0, vt0 = env[e.func.value.id]
+            kk, kt = self.expr(e.args[0], env, hoist)
+            kk = self.need(kk, kt, kt0, hoist)
+            dv, dvt = self.expr(e.args[1], env, hoist)
+            return "(kdict_get_default %s %s %s %s)" % (self.key_eqb(kt0), e.func.value.id, kk, self.need(dv, dvt, vt0, hoist)), vt0
+        if isinstance(e, ast.BoolOp) and isinstance(e.op, ast.Or) and len(e.values) == 2 and isinstance(e.values[1], ast.Dict) \
+                and not e.values[1].keys and self.cfg.get("kdict_or_empty"):
+            # cfg["kdict_or_empty"]: `x or {}` with x a (possibly None) `kdict`: x when it is a non-empty dict, else an empty dict -
+            # as a VALUE that is x's content, or [] for None (PyRt.opt_or_empty); aliasing is not modelled
+            a, at = self.expr(e.values[0], env, hoist)
+            if at[0] == "opt" and at[1][0] == "kdict":
+                return "(opt_or_empty %s)" % a, at[1]
+            if at[0] == "kdict":
+                return a, at
+            raise Unsupported("`x or {}` on a %s" % (at,))
         if isinstance(e, ast.DictComp):
             # {k(x): v(x) for x in L}  ->  fold_left (fun d x => dict_set d k v) L []; neither k nor v may raise
             if len(e.generators) != 1 or e.generators[0].is_async or e.generators[0].ifs \
@@ -690,6 +721,13 @@ class Tr:
             # d[k] read on a `dict T`: checked lookup (PyRt.dict_get, KeyError = Err 96); any other subscript is refused
             mark = len(hoist)
             d, dt = self.expr(e.value, env, hoist)
+            if dt[0] == "kdict":      # d[k] on a `kdict K V`: KeyError = Err cfg["key_error"] (refused when that tag is not declared)
+                if self.cfg.get("key_error") is None:
+                    raise Unsupported("read of a typed-key dict without a declared key_error: " + ast.unparse(e))
+                kk, kt = self.expr(e.slice, env, hoist)
+                n = self.new("r")
+                hoist.append((n, "kdict_get %s (%d) %s %s" % (self.key_eqb(dt[1]), self.cfg["key_error"], d, self.need(kk, kt, dt[1], hoist))))
+                return n, dt[2]
             if dt[0] != "dictof":
                 del hoist[mark:]
                 raise Unsupported("subscript of a %s: %s" % (dt, ast.unparse(e)))
@@ -698,6 +736,68 @@ class Tr:
             hoist.append((n, "dict_get %s %s" % (d, self.need(kk, kt, ("Z",), hoist))))
             return n, dt[1]
         raise Unsupported("expression: " + ast.unparse(e))
+
+    # ---- dicts with keys of a declared type (`kdict K V`)
+    def key_eqb(self, kt):
+        """the equality test of a `kdict` key type: Z.eqb for ints, else the one declared in cfg["eqb"]"""
+        if kt == ("Z",):
+            return "Z.eqb"
+        if len(kt) == 1 and kt[0] in self.eqb:
+            return self.eqb[kt[0]]
+        raise Unsupported("dict key type without a declared equality test: %s" % (kt,))
+
+    def kdict_literal(self, e, env, hoist):
+        """cfg["dict_literal_type"] = `kdict K V`: a non-empty dict literal {k1: v1, ...} of the function has that type; keys and
+        values are evaluated in source order and coerced to K / V (cfg["coerce"]); a repeated key keeps its first place and
+        takes the last value (successive kdict_set), as in Python"""
+        ty = parse_type(self.cfg["dict_literal_type"])
+        if ty[0] != "kdict" or any(kx is None for kx in e.keys):
+            raise Unsupported("dict literal: " + ast.unparse(e)[:80])
+        term = "[]"
+        for kx, vx in zip(e.keys, e.values):
+            kk, kt = self.expr(kx, env, hoist)
+            kk = self.need(kk, kt, ty[1], hoist)
+            vv, vt = self.expr(vx, env, hoist)
+            term = "(kdict_set %s %s %s %s)" % (self.key_eqb(ty[1]), term, kk, self.need(vv, vt, ty[2], hoist))
+        return term, ty
+
+    def kdict_items_source(self, e, env):
+        """the variable d when [e] is {K: V for a, b in d.items()} with d bound at a `kdict` type, else None"""
+        if len(e.generators) != 1:
+            return None
+        g = e.generators[0]
+        if g.is_async or g.ifs or not self.tuple_comp_target(g.target) or len(g.target.elts) != 2:
+            return None
+        it = g.iter
+        if isinstance(it, ast.Call) and isinstance(it.func, ast.Attribute) and it.func.attr == "items" and not it.args and not it.keywords \
+                and isinstance(it.func.value, ast.Name) and env.get(it.func.value.id, ("unit",))[0] == "kdict":
+            return it.func.value.id
+        return None
+
+    def kdict_comp(self, e, env, hoist):
+        """{key(a, b): val(a, b) for a, b in d.items()} over a `kdict K V`: the items in the dict's order, from the left, the key
+        evaluated before the value (CPython >= 3.8), `kdict_set` into a dict that starts empty; when key / value may raise the
+        monad's fold (the first exception aborts), otherwise fold_left.  The key expression's type needs an equality test."""
+        d = self.kdict_items_source(e, env)
+        _, kt0, vt0 = env[d]
+        a, b = [x.id for x in e.generators[0].target.elts]
+        if a == b:
+            raise Unsupported("dict comprehension target: " + ast.unparse(e)[:80])
+        env2 = dict(env)
+        env2[a], env2[b] = kt0, vt0
+        inner = []
+        kk, kt = self.expr(e.key, env2, inner)
+        vv, vt = self.expr(e.value, env2, inner)
+        acc = self.new("d")
+        step = "kdict_set %s %s %s %s" % (self.key_eqb(kt), acc, kk, vv)
+        if not inner:
+            return "(fold_left (fun %s '(%s, %s) => %s) %s [])" % (acc, a, b, step, d), ("kdict", kt, vt)
+        if self.M["type"] != "result":
+            raise Unsupported("dict comprehension whose key / value may raise under a non-default monad: " + ast.unparse(e)[:80])
+        n = self.new("dc")
+        body = "".join("dor %s <- %s; " % nt for nt in inner) + "Ok (%s)" % step
+        hoist.append((n, "res_fold (fun %s '(%s, %s) => %s) %s []" % (acc, a, b, body, d)))
+        return n, ("kdict", kt, vt)
 
     def tuple_comp_target(self, t):
         return isinstance(t, ast.Tuple) and len(t.elts) >= 2 and all(isinstance(x, ast.Name) for x in t.elts)
@@ -800,6 +900,8 @@ class Tr:
             return "[]"
         if want[0] == "pairdict" and have == EMPTY_T:
             return "[]"
+        if want[0] == "kdict" and have == EMPTY_T:
+            return "[]"
         if {have, want} == {("dict",), ("dictof", ("Z",))}:
             return term
         co = self.coercion(have, want)
@@ -828,6 +930,10 @@ class Tr:
         v, t = self.expr(e, env, hoist)
         if t == ("bool",):
             return v
+        if t[0] == "kdict":      # truth value of a dict: it is not empty
+            return "(negb (is_nil %s))" % v
+        if t[0] == "opt" and t[1][0] == "kdict":      # truth value of an Optional[dict]: None and {} are false
+            return "(opt_list_truthy %s)" % v
         if t[0] == "opt" and t[1][0] == "list":
             return "(opt_list_truthy %s)" % v
         if t[0] == "list":
@@ -858,6 +964,18 @@ class Tr:
             b, bt = self.expr(le.elts[1], env, hoist)
             r = "(pdict_mem %s %s %s)" % (re.id, self.need(a, at, ("Z",), hoist), self.need(b, bt, ("Z",), hoist))
             return r if isinstance(op, ast.In) else "(negb %s)" % r
+        if isinstance(op, (ast.In, ast.NotIn)) and self.cfg.get("eqb_membership"):
+            # cfg["eqb_membership"]: `x in L` with L : list T and T a type with a declared equality test (cfg["eqb"]):
+            # Python compares x with the elements from the left (existsb)
+            # (any other membership test falls through to the integer / dict / set forms below)
+            probe, saved = [], self.fresh
+            x, xt = self.expr(le, env, probe)
+            c, ct = self.expr(re, env, probe)
+            if ct[0] == "list" and ct[1] == xt and len(xt) == 1 and xt[0] in self.eqb:
+                hoist.extend(probe)
+                r = "(existsb (%s %s) %s)" % (self.eqb[xt[0]], x, c)
+                return r if isinstance(op, ast.In) else "(negb %s)" % r
+            self.fresh = saved
         if isinstance(op, (ast.In, ast.NotIn)):
             x, xt = self.expr(le, env, hoist)
             c, ct = self.expr(re, env, hoist)
@@ -1016,6 +1134,9 @@ class Tr:
                 for c in st.cases:
                     for n in self.assigned(c.body):
                         add(n)
+            elif isinstance(st, ast.Try) and self.cfg.get("except_tags") is not None:
+                for n in self.assigned(st.body) + [x for h in st.handlers for x in self.assigned(h.body)]:
+                    add(n)
             elif isinstance(st, ast.Try) and self.try_prims:
                 for n in self.assigned(st.body) + [x for h in st.handlers for x in self.assigned(h.body)]:
                     add(n)
@@ -1194,6 +1315,11 @@ class Tr:
                     term = "(pdict_set %s %s %s %s)" % (d, self.need(ka, kat, ("Z",), hoist), self.need(kb, kbt, ("Z",), hoist),
                                                        self.need(vv, vt, dt[1], hoist))
                     return self.bind_hoist(hoist, "%slet %s := %s in\n" % (ind, d, term), ind) + self.block(rest, env, k, ind)
+                if dt is not None and dt[0] == "kdict":      # d[k] = v on a `kdict K V`: an existing key keeps its place, a new one goes last
+                    vv, vt = self.expr(st.value, env, hoist)      # Python evaluates the right-hand side first
+                    kk, kt = self.expr(tgt.slice, env, hoist)
+                    term = "(kdict_set %s %s %s %s)" % (self.key_eqb(dt[1]), d, self.need(kk, kt, dt[1], hoist), self.need(vv, vt, dt[2], hoist))
+                    return self.bind_hoist(hoist, "%slet %s := %s in\n" % (ind, d, term), ind) + self.block(rest, env, k, ind)
                 if dt is None or dt[0] not in ("dict", "dictof"):
                     raise Unsupported("subscript assignment: " + ast.unparse(st))
                 kk, kt = self.expr(tgt.slice, env, hoist)
@@ -1244,6 +1370,15 @@ class Tr:
             names = self.targets(tgt)
             v, vt = self.expr(st.value, env, hoist)
             tys = tuple(self.var_type(n) for n in names)
+            if vt[0] == "list" and self.cfg.get("unpack_error") is not None and self.M["type"] == "result" \
+                    and all(t == vt[1] for t in tys) and len(set(names)) == len(names):
+                # cfg["unpack_error"] = tag: (a, b, ..) = e with e a LIST: ValueError (Err tag) unless it has exactly that many items
+                env2 = dict(env)
+                for n, t in zip(names, tys):
+                    env2[n] = t
+                txt = "%smatch %s with\n%s| [%s] =>\n%s%s| _ => Err (%d)\n%send\n" % (
+                    ind, v, ind, "; ".join(names), self.block(rest, env2, k, ind + "    "), ind, self.cfg["unpack_error"], ind)
+                return self.bind_hoist(hoist, txt, ind)
             if vt != ("tuple", tys):
                 raise Unsupported("tuple assignment of a %s to %s" % (vt, tys))
             env2 = dict(env)
@@ -1428,6 +1563,8 @@ class Tr:
             return self.loop(st, rest, env, k, ind)
         if isinstance(st, ast.Match):
             return self.block([self.match_to_if(st)] + rest, env, k, ind)
+        if isinstance(st, ast.Try) and self.cfg.get("except_tags") is not None:
+            return self.try_catch(st, rest, env, k, ind)
         if isinstance(st, ast.Try) and self.try_prims:
             return self.try_stmt(st, rest, env, k, ind)
         if isinstance(st, ast.With):
@@ -1516,6 +1653,57 @@ class Tr:
                     ind, self.M["bind"], ans, tmpl.format(**args), ind, ans, ind, okpat.format(x=val), t_ok, ind, t_ex, ind)
                 return self.bind_hoist(hoist, txt, ind)
         raise Unsupported("try body whose first statement is not a declared primitive: " + ast.unparse(first)[:80])
+
+    # ---- try / except over exception classes given as sets of error tags (cfg["except_tags"])
+    def try_catch(self, st, rest, env, k, ind):
+        """try: B except E [as n]: H   with E declared in cfg["except_tags"] = {class name: [tags]} and H ending in a raise:
+             dor (vs) <- res_catch [tags] (B; Ok (vs)) (H);  rest
+        PyRt.res_catch runs the handler exactly when B ends in an Err whose tag is listed for E; any other Err passes through."""
+        table = self.cfg["except_tags"]
+        if st.orelse or st.finalbody or len(st.handlers) != 1 or self.M["type"] != "result":
+            raise Unsupported("try statement other than try / one except (default monad)")
+        h = st.handlers[0]
+        cls = h.type.id[:-len(SUFFIX)] if isinstance(h.type, ast.Name) and h.type.id.endswith(SUFFIX) else None
+        if cls not in table:
+            raise Unsupported("except clause over an undeclared exception class: " + (ast.unparse(h.type) if h.type is not None else "<bare>"))
+        if any(isinstance(n, (ast.Continue, ast.Return, ast.Break)) for part in (st.body, h.body) for x in part for n in ast.walk(x)) \
+                or any(isinstance(n, (ast.Raise, ast.Try)) for x in st.body for n in ast.walk(x)):
+            raise Unsupported("continue / break / return inside try / except, or raise / try inside a try body")
+        if not (h.body and isinstance(h.body[-1], ast.Raise)):
+            raise Unsupported("except handler that does not end in a raise")
+        top = []
+        for x in st.body:
+            if isinstance(x, ast.Assign) and len(x.targets) == 1:
+                t = x.targets[0]
+                top += [t.id] if isinstance(t, ast.Name) else [y.id for y in t.elts] if self.tuple_comp_target(t) else []
+        bound = lambda v: v in env and env[v] != ("unit",)
+        allv = self.assigned(st.body)
+        vs = [v for v in allv if bound(v) or v in top]
+        ends = []
+
+        def ret(env2, jump=None):
+            if jump is not None:
+                raise Unsupported("jump in try")
+            ends.append(env2)
+            return "%s    Ok %s\n" % (ind, tuple_term(vs))
+
+        def ret_h(env2, jump=None):
+            raise Unsupported("except handler that may end without raising")
+
+        tb = self.block(list(st.body), env, ret, ind + "    ")
+        th = self.block(list(h.body), env, ret_h, ind + "    ")
+        if len(ends) != 1:
+            raise Unsupported("try body with more than one normal end")
+        tags = "[" + "; ".join("(%d)" % t for t in table[cls]) + "]"
+        txt = "%sdor %s <- res_catch %s (\n%s%s  ) (\n%s%s  );\n" % (ind, self.bind_pat(vs), tags, tb, ind, th, ind)
+        env_after = dict(env)
+        for v in vs:
+            env_after[v] = ends[0][v]
+        for v in allv:
+            if v not in vs:
+                txt += "%slet %s := tt in\n" % (ind, v)   # poison: a later read is a type error
+                env_after[v] = ("unit",)
+        return txt + self.block(rest, env_after, k, ind)
 
     # ---- with blocks (cfg["contexts"]) and statement-run primitives (cfg["stmt_prims"])
     def with_item(self, st):
